@@ -7,7 +7,137 @@ import (
 	"gorgonia.org/tensor"
 )
 
+// progm: histories with masks; observation per step: status T<i>[shape|L:values|K:logical mask]
+func runProgM(dt, prog string) string {
+	w := &world{dt: dt}
+	var out []string
+	obs := func() string {
+		var sb strings.Builder
+		for i, t := range w.ts {
+			if w.dead[i] {
+				sb.WriteString(fmt.Sprintf(" T%d[_|dead]", i))
+				continue
+			}
+			s := serObs("T"+fmt.Sprint(i), t)
+			sb.WriteString(" " + s)
+		}
+		return sb.String()
+	}
+	for _, op := range strings.Split(prog, ";") {
+		f := strings.Split(op, ":")
+		st := func() (st string) {
+			defer func() {
+				if e := recover(); e != nil {
+					st = "panic"
+				}
+			}()
+			switch f[0] {
+			case "setmask":
+				w.ts[atoi(f[1])].SetMask(bits(f[2]))
+				return "ok"
+			case "resetmask":
+				if err := w.ts[atoi(f[1])].ResetMask(f[2] == "1"); err != nil {
+					return "err"
+				}
+				return "ok"
+			}
+			return w.step(op)
+		}()
+		if st == "panic" {
+			out = append(out, "panic")
+			break
+		}
+		out = append(out, st+obs())
+	}
+	return strings.Join(out, " # ")
+}
+
+func genMaskHistories(tier string, r *rng, emit func(string)) {
+	n := 400
+	if tier == "thorough" {
+		n = 6000
+	}
+	for i := 0; i < n; i++ {
+		var ops []string
+		type tinfo struct {
+			sh     []int
+			base   bool
+			sliced bool
+		}
+		var ts []tinfo
+		dead := map[int]bool{}
+		add := func(op string, ti tinfo) { ops = append(ops, op); ts = append(ts, ti) }
+		// a masked base tensor and views / clones of it; tensors handed back to the pool; fresh
+		// tensors that ask for a mask of their own afterwards
+		sh := randShape(r, 1, 3, 3)
+		add(fmt.Sprintf("new:rm:%s:0", fints(sh)), tinfo{sh: sh, base: true})
+		var sb strings.Builder
+		for k := 0; k < prod(sh); k++ {
+			sb.WriteString([]string{"0", "1"}[r.intn(2)])
+		}
+		ops = append(ops, fmt.Sprintf("setmask:0:%s", sb.String()))
+		steps := r.rangeInt(3, 9)
+		for k := 0; k < steps; k++ {
+			var live []int
+			for j := range ts {
+				if !dead[j] {
+					live = append(live, j)
+				}
+			}
+			if len(live) == 0 {
+				break
+			}
+			t := live[r.intn(len(live))]
+			switch r.intn(7) {
+			case 0, 1:
+				if len(ts[t].sh) > 0 && prod(ts[t].sh) > 0 {
+					sliceOnly = true
+					v := randView(r, t, ts[t].sh)
+					sliceOnly = false
+					p := strings.Join(append(append([]string{}, ops...), v), ";")
+					if s, ok := shapeAfter("f64", strings.ReplaceAll(stripMaskOps(p), ";;", ";"), len(ts)); ok {
+						ts[t].sliced = true
+						add(v, tinfo{sh: s})
+					}
+				}
+			case 2:
+				add(fmt.Sprintf("clone:%d", t), tinfo{sh: ts[t].sh})
+			case 3:
+				if t != 0 && len(live) > 1 {
+					ops = append(ops, fmt.Sprintf("ret:%d", t))
+					dead[t] = true
+				}
+			case 4:
+				s2 := randShape(r, 1, 2, 3)
+				add(fmt.Sprintf("new:rm:%s:50", fints(s2)), tinfo{sh: s2, base: true})
+				ops = append(ops, fmt.Sprintf("resetmask:%d:%d", len(ts)-1, r.intn(2)))
+			case 5:
+				if len(ts[t].sh) >= 2 {
+					ops = append(ops, fmt.Sprintf("T:%d:%s", t, fints(r.perm(len(ts[t].sh)))))
+					ops = append(ops, fmt.Sprintf("UT:%d", t))
+				}
+			default:
+				ops = append(ops, fmt.Sprintf("resetmask:%d:%d", t, r.intn(2)))
+			}
+		}
+		emit("progm f64 " + strings.Join(ops, ";"))
+	}
+}
+
+// the structural part of a mask history (for shapeAfter)
+func stripMaskOps(p string) string {
+	var keep []string
+	for _, op := range strings.Split(p, ";") {
+		if strings.HasPrefix(op, "setmask:") || strings.HasPrefix(op, "resetmask:") {
+			continue
+		}
+		keep = append(keep, op)
+	}
+	return strings.Join(keep, ";")
+}
+
 func init() {
+	execs["progm"] = func(a []string) string { return runProgM(a[0], a[1]) }
 	gens["C19"] = genC19
 	// poolev dt prog : run a program with the pool-event hook on; report double returns
 	execs["poolev"] = func(a []string) string {
@@ -36,12 +166,24 @@ func randHistoryOp(r *rng, w *world) string {
 	if n == 0 {
 		return ""
 	}
-	pick := func() int { return r.intn(n) }
+	var live []int
+	for i := range w.ts {
+		if !w.dead[i] {
+			live = append(live, i)
+		}
+	}
+	if len(live) == 0 {
+		return fmt.Sprintf("new:rm:%s:%d", fints(randShape(r, 1, 3, 3)), r.rangeInt(0, 40))
+	}
+	pick := func() int { return live[r.intn(len(live))] }
 	t := pick()
 	sh := []int(w.ts[t].Shape())
 	sameShape := func(i int) []int {
 		var out []int
 		for j, x := range w.ts {
+			if w.dead[j] {
+				continue
+			}
 			if j != i && fints(x.Shape()) == fints(w.ts[i].Shape()) && x.Dtype() == w.ts[i].Dtype() {
 				out = append(out, j)
 			}
@@ -62,6 +204,11 @@ func randHistoryOp(r *rng, w *world) string {
 			}
 		}
 		return "safe"
+	}
+	if r.intn(12) == 0 && len(live) > 2 {
+		// hand a finished tensor back to the pool; its struct (and whatever it still references) is
+		// recycled by the following operations
+		return fmt.Sprintf("ret:%d", t)
 	}
 	switch r.intn(22) {
 	case 0, 1:
@@ -176,7 +323,20 @@ func genHistory(r *rng, length int) string {
 		if len(w.ts) > 8 {
 			break
 		}
-		op := randHistoryOp(r, w)
+		// the generator looks at the LIVE tensors to choose arguments; a library defect that
+		// corrupts one of them (a zeroed shape, say) must end the history, not the run: the
+		// history generated so far is emitted and the comparison with the model reports it
+		op, bad := func() (o string, bad bool) {
+			defer func() {
+				if e := recover(); e != nil {
+					bad = true
+				}
+			}()
+			return randHistoryOp(r, w), false
+		}()
+		if bad {
+			break
+		}
 		if op == "" {
 			continue
 		}
@@ -187,8 +347,8 @@ func genHistory(r *rng, length int) string {
 		}
 		// keep tensors small
 		big := false
-		for _, t := range w.ts {
-			if t.Shape().TotalSize() > 64 {
+		for i, t := range w.ts {
+			if !w.dead[i] && t.Shape().TotalSize() > 64 {
 				big = true
 			}
 		}
@@ -216,6 +376,7 @@ func genC19(tier string, r *rng, emit func(string)) {
 			emit("poolev f64 " + h)
 		}
 	}
+	genMaskHistories(tier, r, emit)
 	// caller-owned axes slices: T with explicit axes followed by every way of dropping the thunk
 	for _, sh := range allShapes(4, 3) {
 		if len(sh) < 2 {
@@ -227,6 +388,12 @@ func genC19(tier string, r *rng, emit func(string)) {
 			}
 			base := fmt.Sprintf("new:rm:%s:0;T:0:%s", fints(sh), fints(p))
 			emit("progk f64 " + base + ";UT:0")
+			emit("progk f64 " + base + ";ret:0;new:rm:2:0")
+			emit("progk f64 " + base + ";clone:0;ret:1;UT:0")
+			sbase := fmt.Sprintf("new:rm:%s:0;safeT:0:%s", fints(sh), fints(p))
+			emit("progk f64 " + sbase + ";UT:1")
+			emit("progk f64 " + sbase + ";ret:1;new:rm:2:0")
+			emit("progk f64 " + sbase + ";transpose:1;ret:1")
 			emit("progk f64 " + base + ";transpose:0;UT:0")
 			emit("progk f64 " + base + fmt.Sprintf(";T:0:%s;UT:0", fints(r.perm(len(sh)))))
 			emit("progk f64 " + base + ";safeT:0:" + fints(p) + ";UT:1;UT:0")
